@@ -31,6 +31,7 @@ META = {
 }
 META['bounds'].append('a table / function converter registered on Length and removed again: 5 unit pairs x 3 converter kinds')
 META['bounds'].append('fourth user program: units sharing a descriptive name, unit-first two-item terms with different exponents, int with exponent 3')
+META['bounds'].append('fourth user program, third type: units declared by the reciprocal of (normalised) definitions')
 
 
 def setup(mode):
